@@ -279,11 +279,13 @@ class MaskCombinator(Generic[R], GenerativeFunction[Mask[R]]):
             # is empty), so the inner function cannot be assessed against
             # `sample`; it contributes nothing and returns an invalid mask.
             retval = self.gen_fn.__abstract_call__(*inner_args)
-            return jnp.zeros(()), Mask(retval, check)
+            return jnp.zeros(()), Mask.build(retval, check)
         score, retval = self.gen_fn.assess(sample, inner_args)
         return (
             check * score,
-            Mask(retval, check),
+            # `build`, as in `MaskTrace.build`: the inner return value may itself be
+            # a mask (mask of a masked function), and masks do not nest
+            Mask.build(retval, check),
         )
 
 
